@@ -175,7 +175,8 @@ impl JobOut {
             .maxima
             .entry(name.to_string())
             .or_insert(f64::NEG_INFINITY);
-        if v > *e || v.is_nan() {
+        // NaN (0/0 on identically zero lanes) is ignored
+        if v > *e {
             *e = v;
         }
     }
